@@ -2,7 +2,7 @@
     cancelled one-shot requests return.  Statements only; proofs are in GqlTyping/Proofs*.v. *)
 From Coq Require Import List ZArith String Bool Arith.
 From Thunder Require Import Lib.Json GqlTyping.Types GqlTyping.Parse GqlTyping.ProofsParse GqlTyping.ProofsCost GqlTyping.ProofsExec GqlTyping.ProofsCostPrepare GqlTyping.ProofsCostExplicit
-     GqlTyping.Conn GqlTyping.ProofsConn GqlTyping.OneShot GqlTyping.ProofsOneShot.
+     GqlTyping.Conn GqlTyping.ProofsConn GqlTyping.OneShot GqlTyping.ProofsOneShot GqlTyping.Envelope GqlTyping.ProofsEnvelope.
 Import ListNotations.
 Open Scope string_scope.
 Open Scope list_scope.
@@ -172,6 +172,50 @@ Proof.
 Qed.
 Print Assumptions oneshot_cancel_repaired_returns.
 
+(** 5. The envelope layer (server.go ServeJSONSocket's read loop, conn.handle, the decoding of
+    inEnvelope / subscribeMessage / mutateMessage / url; http.go httpPostBody) as total functions over
+    arbitrary JSON: [env_step] gives, for every JSON value or non-JSON text a client sends and every table of
+    running subscriptions, what the read loop does - the connection ends, one error envelope, one echo, or
+    nothing written by the loop (an accepted request runs on its own) - and the new table.  The harness
+    sends scripts of envelopes of every shape and compares reaction and reply id with [env_step]. *)
+
+(** The connection ends exactly when the text is not JSON, not an object (or null), or gives id / type /
+    extensions a value of the wrong kind - never because of the message type, the message, the query,
+    the variables or the number of subscriptions. *)
+Theorem connection_ends_only_on_malformed_envelope :
+  forall (maxsubs : nat) (subs : list string) (input : option json) (valid : bool * bool),
+    fst (env_step maxsubs subs input valid) = REnds <-> envelope_shape_ok input = false.
+Proof. exact ends_iff. Qed.
+Print Assumptions connection_ends_only_on_malformed_envelope.
+
+(** Whatever one envelope is, every other running subscription stays in the table, unless the
+    connection ends or the envelope is the unsubscribe that names it. *)
+Theorem envelope_leaves_other_subscriptions :
+  forall (maxsubs : nat) (subs : list string) (input : option json) (valid : bool * bool) (x : string),
+    In x subs -> fst (env_step maxsubs subs input valid) <> REnds ->
+    In x (snd (env_step maxsubs subs input valid)) \/
+    exists j e, input = Some j /\ decode_envelope j = Some e /\ v_type e = "unsubscribe" /\ v_id e = x.
+Proof. exact others_survive. Qed.
+Print Assumptions envelope_leaves_other_subscriptions.
+
+(** An envelope that is answered with an error (undecodable message, duplicate id, too many
+    subscriptions, query rejected by Parse or PrepareQuery, unknown type, bad url) or with an echo changes
+    nothing on the connection. *)
+Theorem rejected_envelope_changes_nothing :
+  forall (maxsubs : nat) (subs : list string) (input : option json) (valid : bool * bool),
+    fst (env_step maxsubs subs input valid) = RSyncError \/ fst (env_step maxsubs subs input valid) = REcho ->
+    snd (env_step maxsubs subs input valid) = subs.
+Proof. exact error_changes_nothing. Qed.
+Print Assumptions rejected_envelope_changes_nothing.
+
+(** HTTP: a POST body is executed only if it decodes as {query, variables} and Parse and PrepareQuery
+    accept it; every other body - any JSON value, or none - is answered with `errors`. *)
+Theorem http_body_runs_only_if_decoded_and_valid :
+  forall (body : option json) (valid : bool),
+    http_step body valid = HRuns <-> http_body_ok body = true /\ valid = true.
+Proof. exact http_runs_iff. Qed.
+Print Assumptions http_body_runs_only_if_decoded_and_valid.
+
 (** Non-vacuity. *)
 Example bomb_4_costs : detect_conflicts orig (btbl unary 4) (broot unary) = ROk 32
                        /\ detect_conflicts repaired (btbl unary 4) (broot unary) = ROk 6.
@@ -191,3 +235,16 @@ Example bomb_doc_within_the_explicit_bound :
   gdoc_size (bomb_doc unary 5) = 19 /\ query_size (bquery unary 5) = 18 /\
   exists c, convert repaired (bomb_doc unary 5) [] = ROk (bquery unary 5, c) /\ c <= 1 + 19.
 Proof. split; [reflexivity|]. split; [reflexivity|]. eexists. split; [reflexivity|]. vm_compute. repeat constructor. Qed.
+Example envelope_script :
+  env_script 200 []
+    [(Some (ex_sub "h1" "{ a }"), (true, false));
+     (Some (JObj [("ID", JStr "x"); ("Type", JStr "subscribe"); ("MESSAGE", JObj [("query", JNum 5)])]), (false, false));
+     (Some (ex_sub "h1" "{ a }"), (true, false));
+     (Some (JObj [("id", JStr "e"); ("type", JStr "echo"); ("extensions", JNull)]), (false, false));
+     (Some (JObj [("type", JStr "frobnicate")]), (false, false));
+     (Some (JObj [("id", JStr "h1"); ("type", JStr "unsubscribe")]), (false, false));
+     (Some JNull, (false, false));
+     (Some (JObj [("id", JNum 5)]), (false, false));
+     (Some (ex_sub "never" "{ a }"), (true, false))]
+  = [RNoSyncReply; RSyncError; RSyncError; REcho; RSyncError; RNoSyncReply; RSyncError; REnds].
+Proof. reflexivity. Qed.
